@@ -88,15 +88,22 @@ func directed(newState bool) []*Seq {
 		// a future-dated snapshot (next = head + 2), consumes it and rebuilds from headers; a different block is
 		// stored, ungraceful restart: correct answers (C05_fault_uncommitted_snapshot_refuted, r1).
 		{NewState: newState, Engine: "memory", Ops: []Op{st(1, 4), st(1, 4), st(2, 4), {K: "G"}, st(1, 3), {K: "U"}, st(1, 4)}},
-		// WHAT SURVIVES the repair: the same history with the snapshot written in the middle of the process's
-		// life (WriteRunningEventFilter without a restart): the ungraceful restart accepts the stale snapshot
-		// (C05_crash_index_midlife_snapshot_refuted); it consumes it, so the second restart rebuilds.
+		// REPAIRED by findings/C05-snapshot-invalidated-by-revert.patch (RevertHead deletes the snapshot inside its
+		// batch): the same history with the snapshot written in the middle of the process's life
+		// (WriteRunningEventFilter without a restart). Before that repair the ungraceful restart accepted the stale
+		// snapshot (C05_stale_snapshot_before_fix_refuted, the former known id crash:stale-filter-snapshot); now every
+		// crash image and every failed-commit run must be clean (C05_stale_snapshot_repaired): a stale answer here is
+		// an ordinary violation (crash:stale-midlife-snapshot-after-revert).
 		{NewState: newState, Engine: "memory", Ops: []Op{st(1, 3), st(2, 4), st(1, 4), {K: "N"}, {K: "R"}, st(2, 3), {K: "U"}, {K: "U"}, st(1, 3)}},
 		// the window end: stores of 8190, 8191 (end), 8192, reverts back across it, re-stores. This is the
 		// regression input of the former class revert-across-window:stale-persisted-window (fixed in /repo
 		// by 5440575): every crash image of it must be consistent and take the next block.
 		{NewState: newState, Engine: "memory", Boundary: true, Ops: []Op{st(1, 3), st(2, 4), st(1, 4), {K: "R"}, {K: "R"}, st(2, 3), st(1, 3)}},
 		{NewState: newState, Engine: "memory", Boundary: true, Ops: []Op{st(1, 3), st(2, 4), {K: "G"}, st(1, 4), {K: "U"}, {K: "R"}, st(2, 3)}},
+		// mid-life snapshot at 8190, revert of 8190, a different 8190, 8191 (window end), ungraceful restarts: before the
+		// revert repair the fill from the stale snapshot re-wrote the persisted window with the old block's column
+		// (C05_stale_snapshot_permanent_before_fix_refuted: permanent false negatives)
+		{NewState: newState, Engine: "memory", Boundary: true, Ops: []Op{st(1, 3), {K: "N"}, {K: "R"}, st(2, 4), st(1, 4), {K: "U"}, {K: "U"}, st(2, 3)}},
 		// snapshot before the window end, the window's last block, ungraceful restart: the filter initialisation
 		// fills from the snapshot, rolls over and re-writes the window with a direct Put (an extra commit)
 		{NewState: newState, Engine: "memory", Boundary: true, Ops: []Op{st(1, 4), {K: "N"}, st(2, 4), {K: "U"}, st(2, 3)}},
